@@ -93,6 +93,116 @@ theorem intern_stable (refs : List Ref) (r : Ref) (i : Nat) (hi : i < refs.lengt
   · rfl
   · simp [List.getElem?_append_left hi]
 
+theorem idxOf?_none (refs : List Ref) (r : Ref) (h : refs.idxOf? r = none) : r ∉ refs := by
+  induction refs with
+  | nil => simp
+  | cons x xs ih =>
+    by_cases hx : x = r
+    · subst hx; simp [List.idxOf?, List.findIdx?_cons] at h
+    · have : (x :: xs).idxOf? r = (xs.idxOf? r).map (· + 1) := by simp [List.idxOf?, List.findIdx?_cons, hx]
+      rw [this] at h
+      cases hxs : xs.idxOf? r with
+      | none => simp only [List.mem_cons, not_or]; exact ⟨fun e => hx e.symm, ih hxs⟩
+      | some j => simp [hxs] at h
+
+theorem intern_mem (refs : List Ref) (r x : Ref) : x ∈ (intern refs r).2 ↔ x ∈ refs ∨ x = r := by
+  unfold intern
+  split
+  · rename_i i hi
+    have : r ∈ refs := List.mem_of_getElem? (idxOf?_get refs r i hi)
+    constructor
+    · exact Or.inl
+    · rintro (h | h)
+      · exact h
+      · subst h; exact this
+  · simp
+
+theorem intern_nodup (refs : List Ref) (r : Ref) (h : refs.Nodup) : (intern refs r).2.Nodup := by
+  unfold intern
+  split
+  · exact h
+  · rename_i hn
+    have := idxOf?_none refs r hn
+    exact List.nodup_append.mpr ⟨h, by simp, by intro a ha b hb; simp at hb; subst hb; intro e; subst e; exact this ha⟩
+
+theorem intern_prefix (refs : List Ref) (r : Ref) : refs <+: (intern refs r).2 := by
+  unfold intern
+  split
+  · exact List.prefix_refl _
+  · exact List.prefix_append _ _
+
+theorem intern_lt (refs : List Ref) (r : Ref) : (intern refs r).1 < (intern refs r).2.length := by
+  have := intern_get refs r
+  exact (List.getElem?_eq_some_iff.mp this).1
+
+/-- The table after a compilation holds what it held before and the references of this compilation,
+nothing else. -/
+theorem internAll_mem : ∀ (rs refs : List Ref) (x : Ref), x ∈ (internAll refs rs).2 ↔ x ∈ refs ∨ x ∈ rs
+  | [], refs, x => by simp [internAll]
+  | r :: rs, refs, x => by
+    simp only [internAll, internAll_mem rs, intern_mem, List.mem_cons]
+    constructor
+    · rintro ((h | h) | h)
+      · exact Or.inl h
+      · exact Or.inr (Or.inl h)
+      · exact Or.inr (Or.inr h)
+    · rintro (h | h | h)
+      · exact Or.inl (Or.inl h)
+      · exact Or.inl (Or.inr h)
+      · exact Or.inr h
+
+/-- **The table of a compilation is its own** (repaired `start_compilation`): numbered from the empty
+table, `source_refs` holds only references of elements of this MIR — whatever was compiled before. -/
+theorem internAll_own (rs : List Ref) : ∀ x ∈ (internAll [] rs).2, x ∈ rs := by
+  intro x hx
+  simpa using (internAll_mem rs [] x).mp hx
+
+/-- … whereas a table that is kept from one compilation to the next carries every earlier entry
+along (the behaviour before the repair: an earlier program's references in a later MIR). -/
+theorem internAll_prefix : ∀ (rs refs : List Ref), refs <+: (internAll refs rs).2
+  | [], refs => by simp [internAll]
+  | r :: rs, refs => by
+    simp only [internAll]
+    exact (intern_prefix refs r).trans (internAll_prefix rs _)
+
+theorem internAll_nodup : ∀ (rs refs : List Ref), refs.Nodup → (internAll refs rs).2.Nodup
+  | [], refs, h => by simpa [internAll] using h
+  | r :: rs, refs, h => by
+    simp only [internAll]
+    exact internAll_nodup rs _ (intern_nodup refs r h)
+
+theorem internAll_length : ∀ (rs refs : List Ref), (internAll refs rs).1.length = rs.length
+  | [], refs => by simp [internAll]
+  | r :: rs, refs => by simp [internAll, internAll_length rs]
+
+/-- Every element's index resolves, in the final table, to the element's own reference. -/
+theorem internAll_resolves : ∀ (rs refs : List Ref) (k : Nat) (h : k < rs.length),
+    (internAll refs rs).2[(internAll refs rs).1[k]'(by rw [internAll_length]; exact h)]? = some rs[k]
+  | r :: rs, refs, 0, _ => by
+    simp only [internAll, List.getElem_cons_zero]
+    have hp := internAll_prefix rs (intern refs r).2
+    have hlt := intern_lt refs r
+    obtain ⟨t, ht⟩ := hp
+    rw [← ht, List.getElem?_append_left hlt]
+    exact intern_get refs r
+  | r :: rs, refs, k + 1, h => by
+    simp only [internAll, List.getElem_cons_succ]
+    exact internAll_resolves rs _ k (by simpa using h)
+
+/-- The embedded files are exactly the files the table names (with the text recorded for them). -/
+theorem sourcesOf_mem (texts : List (String × String)) (table : List Ref) (ft : String × String) :
+    ft ∈ sourcesOf texts table ↔ ft ∈ texts ∧ ∃ r ∈ table, r.file = ft.1 := by
+  simp [sourcesOf, List.mem_filter]
+
+/-- A file that only an earlier compilation referred to is not embedded in a later MIR. -/
+theorem sourcesOf_own (texts : List (String × String)) (rs : List Ref) (ft : String × String)
+    (h : ft ∈ sourcesOf texts (internAll [] rs).2) : ∃ r ∈ rs, r.file = ft.1 := by
+  obtain ⟨_, r, hr, hf⟩ := (sourcesOf_mem _ _ _).mp h
+  exact ⟨r, internAll_own rs r hr, hf⟩
+
+example : internAll [] [⟨3, 10, "a.py", 4⟩, ⟨5, 20, "a.py", 2⟩, ⟨3, 10, "a.py", 4⟩] =
+    ([0, 1, 0], [⟨3, 10, "a.py", 4⟩, ⟨5, 20, "a.py", 2⟩]) := by decide
+
 /-- The frame walk never returns a DSL frame when a user frame exists, and returns the innermost one. -/
 theorem resolve_user : ∀ (stack : List Frame) (pre : List Frame) (u : Frame) (post : List Frame),
     stack = pre ++ u :: post → (∀ f ∈ pre, f.isDsl = true) → u.isDsl = false → resolve stack = some u := by
